@@ -42,7 +42,21 @@ fn after_family(ctx: &mut Ctx) {
 // ---------------------------------------------------------------- conditional trees
 
 const TREE_PREAMBLE: &str = "\\let\\myif=\\iftrue\\let\\myfi=\\fi\\let\\myelse=\\else\\def\\hidfi{\\fi}";
-fn tree_env() -> Env {
+/// `~` is \let to \iftrue or to \fi, depending on what the tree uses it for (never both in one tree).
+fn tree_env(f: &cond::TreeFacts) -> (Env, &'static str) {
+    let (mut e, _) = (tree_env_base(), ());
+    assert!(!(f.active_if && f.active_fi), "a tree uses ~ both as \\iftrue and as \\fi");
+    if f.active_if {
+        e.insert("~", Meaning::IfTrue);
+        (e, "\\let~=\\iftrue")
+    } else if f.active_fi {
+        e.insert("~", Meaning::Fi);
+        (e, "\\let~=\\fi")
+    } else {
+        (e, "")
+    }
+}
+fn tree_env_base() -> Env {
     let mut e = cond::primitives();
     e.insert("myif", Meaning::IfTrue);
     e.insert("myfi", Meaning::Fi);
@@ -59,6 +73,9 @@ fn variant_json(v: &Variant) -> Value {
         Head::IfNum(a, r, b) => json!({"ifnum": [a, r.to_string(), b]}),
         Head::IfOdd(n) => json!({"ifodd": n}),
         Head::IfCase(n) => json!({"ifcase": n}),
+        Head::ActiveTrue => json!("active-true"),
+        Head::TrueActiveFi => json!("true-active-fi"),
+        Head::FalseActiveFi => json!("false-active-fi"),
     };
     json!({"head": head, "ors": v.ors, "else": v.has_else})
 }
@@ -70,6 +87,12 @@ fn variant_parse(v: &Value) -> Variant {
         Head::IfFalse
     } else if h == "alias-true" {
         Head::AliasTrue
+    } else if h == "active-true" {
+        Head::ActiveTrue
+    } else if h == "true-active-fi" {
+        Head::TrueActiveFi
+    } else if h == "false-active-fi" {
+        Head::FalseActiveFi
     } else if let Some(a) = h["ifnum"].as_array() {
         Head::IfNum(a[0].as_i64().unwrap(), a[1].as_str().unwrap().chars().next().unwrap(), a[2].as_i64().unwrap())
     } else if let Some(n) = h["ifodd"].as_i64() {
@@ -132,12 +155,12 @@ fn check_tree(idx: u64, c: &Cond, full_state: bool, distinct: bool, acc: &mut Ac
     want.push(RP);
     want.push(END);
     // second oracle
-    let env = tree_env();
+    let (env, active_preamble) = tree_env(&r.facts);
     let (x, ev) = cond::expand_all(&env, &tokens, true);
     if x.as_ref() != Ok(&want) {
         model_disagreement(format!("{}: by construction {} / expander {:?}", mm::show(&tokens), mm::show(&want), x));
     }
-    let src = format!("{TREE_PREAMBLE}{}", text_of(&tokens));
+    let src = format!("{TREE_PREAMBLE}{active_preamble}{}", text_of(&tokens));
     let out = if full_state { run_full(&src, &[], false) } else { run_m(&src, &[], false) };
     let f = &r.facts;
     if f.some_branch_skipped && f.some_branch_delivered {
@@ -155,6 +178,8 @@ fn check_tree(idx: u64, c: &Cond, full_state: bool, distinct: bool, acc: &mut Ac
         ("ifodd_negative_odd_evaluated", f.negative_odd_live),
         ("brace_in_skipped_text", f.brace_in_skipped_text),
         ("live_case_branch_ended_by_or", f.live_branch_ended_by_or),
+        ("active_character_conditional_alias_live", f.active_alias_live),
+        ("active_character_conditional_alias_in_skipped_text", f.active_alias_in_skipped_text),
         ("depth_ge_4", f.depth >= 4),
         ("depth_6", f.depth >= 6),
     ] {
@@ -238,6 +263,9 @@ fn all_conditions() -> Vec<Variant> {
         v.push(Variant::new(Head::IfTrue, 0, e));
         v.push(Variant::new(Head::IfFalse, 0, e));
         v.push(Variant::new(Head::AliasTrue, 0, e));
+        v.push(Variant::new(Head::ActiveTrue, 0, e));
+        v.push(Variant::new(Head::TrueActiveFi, 0, e));
+        v.push(Variant::new(Head::FalseActiveFi, 0, e));
         let ops = [-3i64, -1, 0, 1, 2, 2147483647];
         for a in ops {
             for r in ['<', '=', '>'] {
@@ -331,13 +359,27 @@ fn x_envs() -> Vec<XEnv> {
         }
         e
     };
+    let with_active = |mut e: Env, m: Meaning| {
+        e.insert("~", m);
+        e
+    };
+    let with_tilde = |b: &Vec<Tok>| {
+        let mut v = b.clone();
+        v.push(cond::ACTIVE);
+        v
+    };
     let mut with_xb = base.clone();
     with_xb.push(cs("xb"));
     vec![
         XEnv { name: "chain", preamble: "\\def\\a{\\b}\\def\\b{y}\\def\\c{}", env: mk(vec![cs("b")], vec![], false), alphabet: base.clone() },
         XEnv { name: "xa-in-body", preamble: "\\def\\a{\\xa\\b\\c}\\def\\b{y}\\def\\c{}", env: mk(vec![cs("xa"), cs("b"), cs("c")], vec![], false), alphabet: base.clone() },
         XEnv { name: "two-names", preamble: "\\let\\xb=\\xa\\def\\a{\\b}\\def\\b{y}\\def\\c{}", env: mk(vec![cs("b")], vec![], true), alphabet: with_xb },
-        XEnv { name: "body-boundary", preamble: "\\def\\a{\\xa\\b}\\def\\b{y}\\def\\c{\\noexpand}", env: mk(vec![cs("xa"), cs("b")], vec![cs("noexpand")], false), alphabet: base },
+        XEnv { name: "body-boundary", preamble: "\\def\\a{\\xa\\b}\\def\\b{y}\\def\\c{\\noexpand}", env: mk(vec![cs("xa"), cs("b")], vec![cs("noexpand")], false), alphabet: base.clone() },
+        // the active character ~ as a macro / as a conditional: a command reference that is not a control sequence
+        XEnv { name: "active-macro", preamble: "\\def~{\\b}\\def\\a{\\b}\\def\\b{y}\\def\\c{}", env: with_active(mk(vec![cs("b")], vec![], false), Meaning::Macro(vec![cs("b")])), alphabet: with_tilde(&base) },
+        XEnv { name: "active-iffalse", preamble: "\\let~=\\iffalse\\def\\a{\\b}\\def\\b{y}\\def\\c{}", env: with_active(mk(vec![cs("b")], vec![], false), Meaning::IfFalse), alphabet: with_tilde(&base) },
+        // for the structured programs: both names of the primitive and the active macro
+        XEnv { name: "two-names-and-active-macro", preamble: "\\let\\xb=\\xa\\def~{\\b}\\def\\a{\\b}\\def\\b{y}\\def\\c{}", env: with_active(mk(vec![cs("b")], vec![], true), Meaning::Macro(vec![cs("b")])), alphabet: with_tilde(&base) },
     ]
 }
 
@@ -404,6 +446,12 @@ fn check_string(idx: u64, xe: &XEnv, env_no: usize, toks: &[Tok], full_state: bo
     }
     if ev.marker_dropped_by_backup {
         acc.count("marker_dropped_by_back_input");
+    }
+    if ev.xa_expands_active_char {
+        acc.count("expandafter_expands_an_active_character");
+    }
+    if toks.contains(&cond::ACTIVE) && ev.expansions > 0 {
+        acc.count("active_character_in_expandafter_program");
     }
     if ev.marked_token_skipped {
         acc.count("marked_token_inside_skipped_text");
@@ -572,7 +620,7 @@ fn main() {
         ctx.finish_replay(acc);
     }
     let thorough = !ctx.quick();
-    let string_maxlens: [u32; 4] = ctx.pick([6, 5, 5, 5], [7, 7, 7, 7]);
+    let string_maxlens: [u32; 6] = ctx.pick([6, 5, 5, 5, 5, 5], [7, 7, 7, 7, 7, 6]);
     let wide_nodes: usize = ctx.pick(2, 3);
 
     if std::env::var("C07_COUNTS").is_ok() {
@@ -594,7 +642,7 @@ fn main() {
         let cref = &conds;
         ctx.family(
             "conditions-in-contexts",
-            &format!("{} conditions (\\iftrue, \\iffalse, \\let-alias, \\ifnum a R b for a,b in {{-3,-1,0,1,2,2^31-1}} x R in {{<,=,>}}, \\ifodd n for n in {{+-3,+-2,+-1,0,+-(2^31-1)}}, \\ifcase n for n in {{-1,0,1,2,3,7}} with 0-3 \\or; each with and without \\else) x 10 contexts (top level; live/skipped then- and else-branch; skipped / live / else branch of an \\ifcase; two levels inside skipped text) x 3 body patterns (letter; letter + nested \\iffalse..\\else..\\fi; empty)", conds.len()),
+            &format!("{} conditions (\\iftrue, \\iffalse, \\let-alias, the active character ~ \\let to \\iftrue, ~ \\let to \\fi closing an \\iftrue / \\iffalse, \\ifnum a R b for a,b in {{-3,-1,0,1,2,2^31-1}} x R in {{<,=,>}}, \\ifodd n for n in {{+-3,+-2,+-1,0,+-(2^31-1)}}, \\ifcase n for n in {{-1,0,1,2,3,7}} with 0-3 \\or; each with and without \\else) x 10 contexts (top level; live/skipped then- and else-branch; skipped / live / else branch of an \\ifcase; two levels inside skipped text) x 3 body patterns (letter; letter + nested \\iffalse..\\else..\\fi; empty)", conds.len()),
             n,
             |i, acc| {
                 let d = vcore::digits(i, &[cref.len() as u64, N_CONTEXTS, 3]);
@@ -602,7 +650,7 @@ fn main() {
                 let p = Cond { v: v.clone(), bodies: probe_bodies(v, d[2]) };
                 let c = in_context(d[1], p);
                 // \\iftrue / \\iffalse / alias / \\ifcase probes also occur in the tree families: counted there
-                check_tree(i, &c, false, matches!(v.head, Head::IfNum(..) | Head::IfOdd(_)), acc);
+                check_tree(i, &c, false, matches!(v.head, Head::IfNum(..) | Head::IfOdd(_) | Head::ActiveTrue | Head::TrueActiveFi | Head::FalseActiveFi), acc);
                 if i % 4001 == 17 {
                     acc.sample(i, || json!({"program": text_of(&c.render().tokens)}));
                 }
@@ -735,7 +783,7 @@ fn main() {
     }
 
     // X1..X4: \expandafter / \noexpand strings, three-way
-    for (k, xe) in xenvs.iter().enumerate() {
+    for (k, xe) in xenvs.iter().enumerate().take(string_maxlens.len()) {
         let maxlen = string_maxlens[k];
         let a = xe.alphabet.len() as u64;
         let n = vcore::strings_upto(a, maxlen) - 1;
@@ -756,22 +804,22 @@ fn main() {
 
     // X5: structured \\expandafter programs that the short strings cannot reach
     {
-        let xe = &xenvs[2]; // \\xb is a second name of the primitive
+        let xe = &xenvs[6]; // \\xb is a second name of the primitive, ~ is an active macro
         let cs = Tok::Cs;
         let x = Tok::Ch('x', 11);
         // (a) flat chains  \\xa t1 \\xa t2 ... \\xa tk T rest
         let maxk = ctx.pick(8u32, 11u32);
-        let targets: Vec<Vec<Tok>> = vec![vec![cs("a")], vec![cs("b")], vec![cs("c")], vec![x], vec![cs("relax")], vec![cs("noexpand"), cs("a")], vec![cs("noexpand"), x], vec![cs("iftrue")], vec![cs("iffalse"), x, cs("else")], vec![cs("xa"), x, cs("a")], vec![cs("xb"), cs("noexpand"), cs("a")]];
+        let targets: Vec<Vec<Tok>> = vec![vec![cs("a")], vec![cs("b")], vec![cs("c")], vec![x], vec![cs("relax")], vec![cs("noexpand"), cs("a")], vec![cs("noexpand"), x], vec![cs("iftrue")], vec![cs("iffalse"), x, cs("else")], vec![cs("xa"), x, cs("a")], vec![cs("xb"), cs("noexpand"), cs("a")], vec![cond::ACTIVE], vec![cs("noexpand"), cond::ACTIVE], vec![cs("xa"), x, cond::ACTIVE]];
         let rests: Vec<Vec<Tok>> = vec![vec![], vec![cs("a")], vec![x, cs("fi")]];
         let n_flat: u64 = (1..=maxk).map(|k| 2u64.pow(k)).sum::<u64>() * 3 * targets.len() as u64 * rests.len() as u64;
         // (b) pyramids: the idiom that expands n tokens in reverse order (2^(n-i)-1 \\expandafter before token i)
-        let menu: Vec<Vec<Tok>> = vec![vec![cs("a")], vec![cs("b")], vec![cs("c")], vec![x], vec![cs("noexpand"), cs("a")]];
+        let menu: Vec<Vec<Tok>> = vec![vec![cs("a")], vec![cs("b")], vec![cs("c")], vec![x], vec![cs("noexpand"), cs("a")], vec![cond::ACTIVE]];
         let maxn = ctx.pick(4u32, 5u32);
         let n_pyr: u64 = (2..=maxn).map(|n| (menu.len() as u64).pow(n) * 2).sum();
         let (tref, rref, mref) = (&targets, &rests, &menu);
         ctx.family(
             "expandafter-structured",
-            &format!("(a) flat chains \\xa t1 .. \\xa tk T rest for k <= {maxk}, every ti in {{x, \\a}}, the k names of the primitive all \\xa / all \\xb / alternating, 11 targets T (macros, x, \\relax, \\noexpand\\a, \\noexpand x, \\iftrue, \\iffalse x\\else, nested \\xa x\\a, \\xb\\noexpand\\a), 3 continuations; (b) the reverse-order idiom with 2^(n-i)-1 \\expandafter in front of token i for n <= {maxn} tokens from a 5-item menu, with one or both names of the primitive; three executions each"),
+            &format!("(a) flat chains \\xa t1 .. \\xa tk T rest for k <= {maxk}, every ti in {{x, \\a}}, the k names of the primitive all \\xa / all \\xb / alternating, 14 targets T (macros, the active macro ~, x, \\relax, \\noexpand\\a, \\noexpand x, \\iftrue, \\iffalse x\\else, nested \\xa x\\a, \\xb\\noexpand\\a), 3 continuations; (b) the reverse-order idiom with 2^(n-i)-1 \\expandafter in front of token i for n <= {maxn} tokens from a 6-item menu (incl. ~), with one or both names of the primitive; three executions each"),
             n_flat + n_pyr,
             |i, acc| {
                 let mut toks: Vec<Tok> = vec![];
@@ -818,7 +866,7 @@ fn main() {
                         toks.extend_from_slice(&mref[*item as usize]);
                     }
                 }
-                check_string(i, xe, 2, &toks, false, toks.len() > string_maxlens[2] as usize, acc);
+                check_string(i, xe, 6, &toks, false, toks.len() > string_maxlens[2] as usize, acc);
                 acc.count("structured_expandafter_programs");
                 if i % 20_011 == 5 {
                     acc.sample(i, || json!({"program": format!("{}{}", xe.preamble, text_of(&toks))}));
@@ -864,6 +912,9 @@ fn main() {
     ctx.require("marker_dropped_by_back_input", "a marked token is read and backed up (TeX drops the marker)");
     ctx.require("marked_token_inside_skipped_text", "a marked \\fi/\\else/\\if.. is passed over while skipping");
     ctx.require("chain_mixing_two_names_of_expandafter", "a chain \\xa t \\xb mixing two names of the primitive");
+    ctx.require("expandafter_expands_an_active_character", "the token an \\expandafter expands is an active character (a command reference that is not a control sequence)");
+    ctx.require("active_character_conditional_alias_live", "a conditional primitive reached through the active character ~ in live text");
+    ctx.require("active_character_conditional_alias_in_skipped_text", "... in skipped text");
     ctx.require("structured_expandafter_programs", "long chains and reverse-order pyramids of \\expandafter");
     ctx.require("full_state_runs", "cases re-run on the full vtex::HState");
     ctx.finish("trees: every tree of the enumerated families on a fresh VM, compared token by token with the letters of the selected branches (non-trivial = at least one branch skipped and at least one delivered); strings: every token string of the family run three times (non-trivial = contains \\expandafter, something was expanded and TeX delivers tokens). distinct_nontrivial counts a case once: re-runs on the full state are not counted, trees of trees-deep / conditions-in-contexts / chains and programs of expandafter-structured that another family also enumerates are counted only there (the counters trees_with_a_skipped_and_a_delivered_branch and strings_where_expandafter_acts_and_tex_delivers give the totals with repetitions)");
